@@ -271,6 +271,7 @@ def opSampler (j : Json) : Json :=
   let (_, obs) := (getArr j "ops").foldl (fun (acc : Sampler.St Sym × Array Json) op =>
     let o : Sampler.Op := match getStr op "op" with
       | "sample" => .sample (((op.getObjValAs? (List (List Nat)) "draws").toOption).getD [])
+      | "switch" => .switch
       | _ => .newSampler
     let s' := Sampler.step f acc.1 o
     (s', acc.2.push (Json.mkObj [("mem", rowsJson kind (Sampler.fullDf s')), ("disk", rowsJson kind s'.disk)])))
